@@ -64,6 +64,12 @@ class Exclusivity(O.Monitor):
             ids = [s.id_number for s in nd.servers]
             if len(set(ids)) != len(ids):
                 rep("server-ids-unique", {"node": nd.id_number, "ids": ids})
+            for i in cs:
+                sv = i.server
+                if sv is not False and sv is not None and sv is not True and getattr(sv, "cust", None) is i \
+                        and i.service_start_date is not False and i.service_end_date is not False and not any(x is sv for x in nd.servers):
+                    rep("customer-in-service-on-a-server-that-is-not-at-the-node", {"node": nd.id_number, "customer": i.id_number,
+                                                                                    "server": getattr(sv, "id_number", None)})
             n_live = sum(1 for i in cs if O.live(nd, i))
             if n_live > len(nd.servers):
                 rep("at-most-c-in-service", {"node": nd.id_number, "in_service": n_live, "servers": len(nd.servers)})
